@@ -17,6 +17,7 @@ InputSeq == SetToSeq(Inputs)
 (* dialect, with white space inserted under flag x, ...).                                             *)
 FlagCps(F) == (IF F.i THEN <<105>> ELSE <<>>) \o (IF F.m THEN <<109>> ELSE <<>>) \o (IF F.s THEN <<115>> ELSE <<>>)
 ReplSpan == <<91, 36, 48, 93>>                                                    \* "[$0]"
+ReplHash == <<35>>                                                                \* "#": a metacharacter-free replacement
 ReplGroups == <<36, 49, 124, 36, 50, 124, 36, 51, 124>>                            \* "$1|$2|$3|"
 CaseOf(P, s) ==
   IF InputUnspec(P, s) THEN [s |-> s, u |-> TRUE]
